@@ -37,6 +37,8 @@ fn run_script(sc: &Value, id: usize, out: Out) {
     let fam = sc["fam"].as_str().unwrap_or("");
     tj::FORDER.with(|f| f.set(sc.get("forder").and_then(|v| v.as_bool()).unwrap_or(false)));
     tj::NEGSTRIDE.with(|f| f.set(sc.get("negstride").and_then(|v| v.as_bool()).unwrap_or(false)));
+    tj::MIXLAYOUT.with(|f| f.set(sc.get("mixlayout").and_then(|v| v.as_bool()).unwrap_or(false)));
+    tj::MIXCOUNT.with(|c| c.set(0));
     match fam {
         "arena" => arena::run(sc, id, out),
         "iter" => arena::run_iter(sc, id, out),
